@@ -156,7 +156,10 @@ type callSite struct {
 	LastRecv                string // class of the plain receive before the call in Caller
 }
 
+var lastLocks []lockRec
+
 func extractAll(repo string) ([]point, []closer, error) {
+	lastLocks = nil
 	var files []fileInfo
 	fset := token.NewFileSet()
 	add := func(rel, kind string) error {
@@ -200,6 +203,7 @@ func extractAll(repo string) ([]point, []closer, error) {
 	params := map[string][]string{}   // file|declared func name (with receiver) -> parameter names
 	fullName := map[string]string{}   // file|bare name -> name with receiver
 	for _, fi := range files {
+		lastLocks = append(lastLocks, analyseLocks(fset, fi.rel, fi.f)...)
 		// buffering of struct-field / local channels from make() sites in this file
 		buf := map[string]string{}
 		ast.Inspect(fi.f, func(n ast.Node) bool {
@@ -558,6 +562,16 @@ func gen(out string) error {
 		a, b := ws[i], ws[j]
 		return a.File+a.Func+a.Chan+a.Kind < b.File+b.Func+b.Chan+b.Kind
 	})
+	sb.WriteString("(* lock-release table (locks.go): file function mutex exit released-on-every-path *)\n")
+	sb.WriteString("Definition locks : list lockrec := [\n")
+	for i, l := range lastLocks {
+		sep := ";"
+		if i == len(lastLocks)-1 {
+			sep = ""
+		}
+		fmt.Fprintf(&sb, "  mkL %s %s %s %s %s%s\n", vh.Str(l.File), vh.Str(l.Func), vh.Str(l.Mutex), vh.Str(l.Exit), vh.Bool(l.Released), sep)
+	}
+	sb.WriteString("].\n\n")
 	sb.WriteString("Definition walkaways : list closer := [\n")
 	for i, w := range ws {
 		sep := ";"
